@@ -21,8 +21,8 @@ import (
 	"fmt"
 	"io"
 	"log/slog"
-	"os"
 	"runtime"
+	"runtime/debug"
 	"sort"
 	"strconv"
 	"strings"
@@ -45,7 +45,7 @@ type eng struct{}
 
 func (eng) Name() string { return "ckpt" }
 func (eng) CoqRequire(mode string) string {
-	return "From Coq Require Import List NArith Bool. Import ListNotations. From RV Require Import Base.Bytes Model.Ckpt Corr.Check_ckpt."
+	return "From Coq Require Import List NArith Bool. Import ListNotations. From RV Require Import Base.Bytes Model.Ckpt Model.Gc Corr.Check_ckpt."
 }
 func (eng) CoqCaseType(mode string) string { return "Check_ckpt.case" }
 func (eng) CoqRun(mode string) string {
@@ -127,6 +127,9 @@ type slot struct {
 	ckpts map[uint64]*task
 	waits map[uint64]func() (recovery.CheckpointHandle, error)
 	nb    *neighbour
+	lo    int
+	hi    int // 0 = owns every key
+	ids   map[uint64]bool // checkpoint ids in its list
 }
 
 type world struct {
@@ -147,6 +150,8 @@ type world struct {
 	universe map[string][]byte
 	nbWait   chan *nbCall
 	gcCount  int // table objects collected (deletes observed in gc operations)
+	dead     sync.Map      // *dkv.DB of crashed database objects: their tasks are not stopped at hook points any more
+	closed   chan struct{} // closed at the end of the case: every parked goroutine is let go
 }
 
 var cur atomic.Pointer[world]
@@ -163,6 +168,9 @@ func hook(name string, args ...any) {
 	if !strings.HasPrefix(name, "dkv.flush.") && !strings.HasPrefix(name, "dkv.compact.") && !strings.HasPrefix(name, "dkv.ckpt.") {
 		return
 	}
+	if _, dead := w.dead.Load(db); dead {
+		return
+	}
 	a := &arrival{db: db, name: name, gate: make(chan struct{})}
 	if len(args) > 1 {
 		if id, ok := args[1].(uint64); ok {
@@ -170,7 +178,10 @@ func hook(name string, args ...any) {
 		}
 	}
 	w.arrivals <- a
-	<-a.gate
+	select {
+	case <-a.gate:
+	case <-w.closed:
+	}
 }
 
 func (w *world) slotOf(db *dkv.DB) *slot {
@@ -179,10 +190,10 @@ func (w *world) slotOf(db *dkv.DB) *slot {
 			return s
 		}
 	}
-	if w.opening != nil {
-		return w.opening
+	if _, dead := w.dead.Load(db); dead {
+		return nil
 	}
-	return nil
+	return w.opening
 }
 
 // expect consumes exactly n arrivals and files them.
@@ -190,9 +201,11 @@ func (w *world) expect(n int) error {
 	for i := 0; i < n; i++ {
 		a := <-w.arrivals
 		s := w.slotOf(a.db)
-		if s == nil {
+		if s == nil || s.fs.dead.Load() {
+			// a task of a crashed database object (or of an Open that failed): let it go, it does not count
 			close(a.gate)
-			return fmt.Errorf("arrival %s of an unknown database", a.name)
+			i--
+			continue
 		}
 		switch {
 		case a.name == "dkv.flush.begin":
@@ -386,16 +399,16 @@ func (n *neighbour) NeedsTable(ctx context.Context, uri string) (bool, error) {
 	switch {
 	case sc == "needs":
 		return true, nil
-	case sc == "free":
-		return false, nil
 	case sc == "err":
 		return false, errors.New("neighbour unreachable")
-	case strings.HasPrefix(sc, "live:"):
-		j, _ := strconv.Atoi(strings.TrimPrefix(sc, "live:"))
-		if j >= 0 && j < len(n.w.slots) && n.w.slots[j].state == "live" && n.w.slots[j].db != nil {
-			return n.w.slots[j].db.NeedsTable(uri), nil
+	case sc == "live":
+		// the truthful answer of every other live database object (all operators are each other's neighbours)
+		for _, o := range n.w.slots {
+			if o != n.owner && o.state == "live" && o.db != nil && o.db.NeedsTable(uri) {
+				return true, nil
+			}
 		}
-		return false, errors.New("neighbour gone")
+		return false, nil
 	}
 	return false, nil
 }
@@ -773,23 +786,18 @@ func (r *runner) stepTask(s *slot, t *task, silent bool) error {
 		case from == "iter" && t.point == "end":
 			res = "CRnil"
 		case from == "iter" && t.point == "swap":
-			// the tables written by this compaction step: files created since the release
-			var added []string
+			// the tables written by this compaction step: files created since the release (contents are reported at the swap)
+			var added []fname
 			for _, ev := range evs {
 				if ev.Kind != "create" {
 					continue
 				}
-				f, ok := parsePath(ev.Path)
-				if !ok || f.Kind != 0 {
-					continue
+				if f, ok := parsePath(ev.Path); ok && f.Kind == 0 {
+					added = append(added, f)
 				}
-				es, err := w.tableEntries(sst.TableDocument{URI: "memory://" + ev.Path, EntriesSize: entriesSizeOf(w.root, ev.Path)})
-				if err != nil {
-					return fmt.Errorf("reading compaction output %s: %v", ev.Path, err)
-				}
-				added = append(added, hx.CoqPair(f.coq(), coqEntries(es)))
 			}
-			res = "CRadded " + hx.CoqList(added, "fname * list entry")
+			sortNames(added)
+			res = "CRadded " + coqNames(added)
 			r.tag("compaction-wrote")
 		case from == "swap":
 			after := s.db.VerifLevelDocs()
@@ -799,9 +807,11 @@ func (r *runner) stepTask(s *slot, t *task, silent bool) error {
 					have[d.URI] = true
 				}
 			}
+			had := map[string]bool{}
 			var removed []fname
 			for _, lv := range before {
 				for _, d := range lv {
+					had[d.URI] = true
 					if !have[d.URI] {
 						f, _ := parsePath(d.URI)
 						removed = append(removed, f)
@@ -809,7 +819,30 @@ func (r *runner) stepTask(s *slot, t *task, silent bool) error {
 				}
 			}
 			sortNames(removed)
-			res = "CRremoved " + coqNames(removed)
+			type ad struct {
+				f fname
+				c string
+			}
+			var added []ad
+			for _, lv := range after {
+				for _, d := range lv {
+					if had[d.URI] {
+						continue
+					}
+					f, _ := parsePath(d.URI)
+					es, err := w.tableEntries(d)
+					if err != nil {
+						return fmt.Errorf("reading compaction output %s: %v", d.URI, err)
+					}
+					added = append(added, ad{f, hx.CoqPair(f.coq(), coqEntries(es))})
+				}
+			}
+			sort.Slice(added, func(i, j int) bool { return added[i].f.Num < added[j].f.Num })
+			ac := make([]string, len(added))
+			for i, a := range added {
+				ac[i] = a.c
+			}
+			res = "CRswapped " + coqNames(removed) + " " + hx.CoqList(ac, "fname * list entry")
 		}
 		r.emit(stepOut{op: fmt.Sprintf("OStepCompact %d (%s)", s.idx, res)})
 	case "ckpt":
@@ -827,22 +860,6 @@ func (r *runner) stepTask(s *slot, t *task, silent bool) error {
 		}
 	}
 	return nil
-}
-
-// entriesSizeOf reads the footer-independent size of the entries block: the repository's reader needs EntriesSize; it is the
-// offset of the first meta block, which the 12-byte footer records. We avoid parsing it by asking the table for its document
-// through a throw-away level list: simpler - read the footer fields directly.
-func entriesSizeOf(root *storage.MemoryFilesystem, path string) uint64 {
-	f := root.Open(path)
-	data, err := io.ReadAll(&storage.Cursor{File: f})
-	if err != nil || len(data) < 12 {
-		return 0
-	}
-	// footer: u32 filter offset? we do not rely on its layout: scan entries from the start until the reader would fail is not
-	// possible without the layout either, so use the documented layout: [entries][bloom][index][footer 12 bytes] where the
-	// footer holds (filterOffset u32, indexOffset u32, indexLen u32) little endian - see dkv/sst/footer.go.
-	le := func(b []byte) uint64 { return uint64(b[0]) | uint64(b[1])<<8 | uint64(b[2])<<16 | uint64(b[3])<<24 }
-	return le(data[len(data)-12 : len(data)-8])
 }
 
 func (r *runner) drain(s *slot, max int, silent bool) error {
@@ -884,6 +901,9 @@ func (r *runner) write(o opJ, del bool) error {
 	if s == nil || len(o.K) < 2 {
 		return nil
 	}
+	if kg := o.K[0]*256 + o.K[1]; s.hi > 0 && (kg < s.lo || kg >= s.hi) {
+		return nil // an operator never writes keys outside its range
+	}
 	if err := r.drainOthers(s); err != nil {
 		return err
 	}
@@ -919,8 +939,8 @@ func (r *runner) write(o opJ, del bool) error {
 
 func (r *runner) newSlot(dir int) *slot {
 	w := r.w
-	s := &slot{idx: len(w.slots), dir: dir, state: "live", ckpts: map[uint64]*task{}, waits: map[uint64]func() (recovery.CheckpointHandle, error){}}
-	s.fs = newVFS(w.root.WithWorkingDir(fmt.Sprintf("d%d", dir)), w.log)
+	s := &slot{idx: len(w.slots), dir: dir, state: "live", ckpts: map[uint64]*task{}, waits: map[uint64]func() (recovery.CheckpointHandle, error){}, ids: map[uint64]bool{}}
+	s.fs = newVFS(w.root.WithWorkingDir(fmt.Sprintf("d%d", dir)), storage.NewMemoryFilesystem().WithWorkingDir(fmt.Sprintf("d%d", dir)), w.log)
 	return s
 }
 
@@ -952,7 +972,9 @@ func (r *runner) restore(o opJ) error {
 	var own kv.DataOwnership
 	ownC := "OwnAll"
 	nbC := "NbNone"
+	s.ids[o.ID] = true
 	if o.Hi > 0 {
+		s.lo, s.hi = o.Lo, o.Hi
 		s.nb = &neighbour{w: w, owner: s, script: o.Nb}
 		var nbs []operator.VerifNeighbor
 		if o.Nb != "" {
@@ -961,15 +983,13 @@ func (r *runner) restore(o opJ) error {
 		own = operator.VerifNewOperatorPartition(partitioning.KeyGroupRange{Start: o.Lo, End: o.Hi}, nbs)
 		ownC = fmt.Sprintf("(OwnRange %d %d)", o.Lo, o.Hi)
 		sc := strings.TrimPrefix(o.Nb, "slow-")
-		switch {
-		case sc == "needs":
+		switch sc {
+		case "needs":
 			nbC = "NbNeeds"
-		case sc == "free":
-			nbC = "NbFree"
-		case sc == "err":
+		case "err":
 			nbC = "NbErr"
-		case strings.HasPrefix(sc, "live:"):
-			nbC = "(NbLive " + strings.TrimPrefix(sc, "live:") + ")"
+		case "live":
+			nbC = "NbLive"
 		}
 		r.tag("own-range")
 		if o.Nb != "" {
@@ -1035,28 +1055,47 @@ func (r *runner) restore(o opJ) error {
 		r.tag("restore-chain")
 	}
 	r.emit(stepOut{op: fmt.Sprintf("ORestore %d %d %s %s %s", s.idx, o.ID, hx.CoqBool(o.Same), ownC, nbC), read: &ro})
+	if src.state == "live" {
+		// the database that created the tables lives on: the restored object is only a probe of the handle (two objects that
+		// both believe they own the same created tables is not a deployment the properties talk about)
+		s.state = "crashed"
+		r.voidTasks(s)
+		s.db, s.waits = nil, nil
+		r.tag("restore-probe-while-source-lives")
+		r.emit(stepOut{op: fmt.Sprintf("OCrash %d", s.idx)})
+	}
 	return nil
 }
 
-// voidTasks lets every task of a dead database run to its end; nothing it does reaches the shared file system.
+// voidTasks lets every task of a dead database run on by itself; nothing it does reaches the shared file system and it is
+// not stopped at hook points any more.
 func (r *runner) voidTasks(s *slot) {
 	w := r.w
-	// tasks that never started (unexpected during a failed Open): consume their arrival first
-	for i := 0; i < 64 && w.tasksOf(s) > 0; i++ {
-		t := w.nextTask(s, "", 0)
-		if t == nil {
-			// a queued flush task of s whose begin has not been consumed yet
-			if w.actFlush == nil && len(w.flushQ) > 0 && w.flushQ[0].slot == s {
-				w.opening = s
-				_ = w.expect(1)
-				w.opening = nil
-				continue
+	s.fs.dead.Store(true)
+	if s.db != nil {
+		w.dead.Store(s.db, true)
+	}
+	keep := func(q []*task) []*task {
+		out := q[:0:0]
+		for _, t := range q {
+			if t.slot != s {
+				out = append(out, t)
 			}
-			break
 		}
-		w.opening = s
-		_ = r.stepTask(s, t, true)
-		w.opening = nil
+		return out
+	}
+	w.flushQ, w.compQ = keep(w.flushQ), keep(w.compQ)
+	if w.actFlush != nil && w.actFlush.slot == s {
+		close(w.actFlush.gate)
+		w.actFlush = nil
+	}
+	if w.actComp != nil && w.actComp.slot == s {
+		close(w.actComp.gate)
+		w.actComp = nil
+	}
+	for id, t := range s.ckpts {
+		close(t.gate)
+		delete(s.ckpts, id)
 	}
 	w.log.take()
 }
@@ -1064,6 +1103,7 @@ func (r *runner) voidTasks(s *slot) {
 func (r *runner) gc() stepOut {
 	w := r.w
 	so := stepOut{op: "OGc"}
+	before := w.files()
 	for _, s := range w.slots {
 		if s.nb != nil {
 			s.nb.mu.Lock()
@@ -1095,11 +1135,14 @@ func (r *runner) gc() stepOut {
 			}
 		}
 	}
-	for _, ev := range w.log.take() {
-		if ev.Kind == "delete" {
-			if f, ok := parsePath(ev.Path); ok {
-				so.gcDel = append(so.gcDel, f)
-			}
+	w.log.take()
+	after := map[fname]bool{}
+	for _, f := range w.files() {
+		after[f] = true
+	}
+	for _, f := range before {
+		if !after[f] {
+			so.gcDel = append(so.gcDel, f)
 		}
 	}
 	sortNames(so.gcDel)
@@ -1139,7 +1182,7 @@ func execute(c *hx.Case) (*hx.Result, error) {
 	slog.SetDefault(discardLogger())
 	w := &world{root: storage.NewMemoryFilesystem(), log: &fsLog{}, handles: map[uint64]*handleRec{}, arrivals: make(chan *arrival, 64),
 		memSize: uint64(pi("mem", 60)), walSize: uint64(pi("wal", 1000)), tfs: uint64(pi("tfs", 80)), universe: map[string][]byte{},
-		nbWait: make(chan *nbCall, 16), nextDir: 1}
+		nbWait: make(chan *nbCall, 16), nextDir: 1, closed: make(chan struct{})}
 	verifhook.SetTuning("dkv", dkv.VerifDBTuning{L0TableNumCompactionTrigger: pi("l0", 2), MaxSizeAmplificationPercent: pi("amp", 50),
 		SmallestLevelSize: int64(pi("sls", 120)), LevelSizeMultiplier: pi("mult", 2)})
 	cur.Store(w)
@@ -1187,6 +1230,7 @@ func execute(c *hx.Case) (*hx.Result, error) {
 			}
 			r.noteWork(s)
 			r.lastCkpt[s.idx] = append(r.lastCkpt[s.idx], o.ID)
+			s.ids[o.ID] = true
 			s.waits[o.ID] = s.db.Checkpoint(o.ID)
 			if err := w.expect(1); err != nil {
 				return fail(err)
@@ -1225,6 +1269,28 @@ func execute(c *hx.Case) (*hx.Result, error) {
 			if s == nil || len(o.IDs) == 0 {
 				continue
 			}
+			kept := 0
+			for _, id := range o.IDs {
+				if s.ids[id] {
+					kept++
+				}
+			}
+			if kept == 0 {
+				continue // RetainOnly panics when nothing is kept: the caller's ids must name a checkpoint of this database
+			}
+			var newest uint64
+			for _, k := range o.IDs {
+				newest = max(newest, k)
+			}
+			for id := range s.ids {
+				found := id > newest
+				for _, k := range o.IDs {
+					found = found || k == id
+				}
+				if !found {
+					delete(s.ids, id)
+				}
+			}
 			// the call panics when none of the ids is in the list: only issue retention updates that keep something
 			var ro *readObs
 			func() {
@@ -1259,7 +1325,6 @@ func execute(c *hx.Case) (*hx.Result, error) {
 			if w.tasksOf(s) > 0 {
 				r.tag("crash-with-tasks-parked")
 			}
-			s.fs.dead.Store(true)
 			s.state = "crashed"
 			r.voidTasks(s)
 			s.db, s.waits = nil, nil
@@ -1305,7 +1370,7 @@ func execute(c *hx.Case) (*hx.Result, error) {
 		tags = append(tags, t)
 	}
 	sort.Strings(tags)
-	term := fmt.Sprintf("mkCase %s", hx.CoqList(r.terms, "op * obs"))
+	term := fmt.Sprintf("mkCase %d %d %s", w.memSize, w.walSize, hx.CoqList(r.terms, "op * obs"))
 	return &hx.Result{Term: term, Nontrivial: r.nontr, Tags: tags, Observed: r.obs}, nil
 }
 
@@ -1313,16 +1378,26 @@ func execute(c *hx.Case) (*hx.Result, error) {
 func (r *runner) cleanup() {
 	w := r.w
 	for _, s := range w.slots {
-		s.fs.dead.Store(true)
+		r.voidTasks(s)
 	}
-	for i := 0; i < 8; i++ {
-		for _, s := range w.slots {
-			if w.tasksOf(s) > 0 {
-				r.voidTasks(s)
-			}
+	close(w.closed)
+	for {
+		select {
+		case a := <-w.arrivals:
+			_ = a
+			continue
+		case c := <-w.nbWait:
+			close(c.done)
+			continue
+		default:
 		}
+		break
 	}
+	// the global task queues must be free again before the next case: wait for every database's tasks
 	for _, s := range w.slots {
+		if s.db != nil {
+			_ = s.db.WaitOnTasks()
+		}
 		s.db, s.waits = nil, nil
 	}
 	verifhook.Set(nil)
@@ -1335,9 +1410,7 @@ func (r *runner) cleanup() {
 func (eng) Execute(mode string, c *hx.Case) (*hx.Result, error) { return execute(c) }
 
 func main() {
-	if len(os.Args) > 1 && os.Args[1] == "-probe" {
-		probe()
-		return
-	}
+	// table files are deleted by runtime.AddCleanup functions: collection must happen only where the history says "gc"
+	debug.SetGCPercent(-1)
 	hx.Main(eng{})
 }
